@@ -361,6 +361,28 @@ def bld_families():
         S(n, [Field([(0, 1)], 'u', arr=(n // 2, 2)), Field([(1, 1)], 'b', arr=(n // 2 - 1, 2))], None, "ARRCOVER")
         S(n, [Field([(0, 4)], 'u', arr=(2, 4), stride_explicit=False), Field([(4, 4)], 'u')] + ([Field([(8, 8)], 'n')] if n == 16 else []), None, "ARROVERLAP")
         S(n, [Field([(0, 4)], 'u', arr=(2, 4), stride_explicit=False), Field([(4, 4)], 'u', access='r')] + ([Field([(8, 8)], 'n')] if n == 16 else []), None, "ARROVERLAP")
+    # two and three fields of the list / array kinds in every order: nothing computed for one field may leak into the next
+    def _mk(kind, base):
+        if kind == 'multi':
+            return Field([(base, 2), (base + 4, 2)], 'u')
+        if kind == 'multi3':
+            return Field([(base + 4, 1), (base, 2), (base + 6, 1)], 'u')
+        if kind == 'arr':
+            return Field([(base, 2)], 'u', arr=(2, 4))
+        if kind == 'ncarr':
+            return Field([(base, 1), (base + 2, 1)], 'u', arr=(2, 4))
+        if kind == 'plain':
+            return Field([(base, 8)], 'n')
+        return Field([(base, 1)], 'b', arr=(8, 1), stride_explicit=False)
+    kinds5 = ('multi', 'multi3', 'arr', 'ncarr', 'barr', 'plain')
+    for k1 in kinds5:
+        for k2 in kinds5:
+            if k1 == 'plain' and k2 == 'plain':
+                continue
+            for dflt in (None, 0):
+                S(16, [_mk(k1, 0), _mk(k2, 8)], dflt, "PAIRS")
+            for k3 in ('multi', 'arr'):
+                S(32, [_mk(k1, 0), _mk(k2, 8), _mk(k3, 16)], 0, "PAIRS")
     # self-overlapping range lists (non-array) and their disjoint neighbours, on u4 and u8
     for n in (4, 8):
         rs = [(lo, l) for lo in range(0, n) for l in range(1, n - lo + 1) if l <= 4]
